@@ -238,7 +238,7 @@ def gen_dataset(r, task: str) -> Tuple[D.SceneSpec, Dict[str, Any]]:
 
 
 def run(ctx: Ctx) -> None:
-    import perception_eval.manager._evaluation_manager_base as base_mod
+    import perception_eval.common.dataset as base_mod  # (the module that defines the functions called below)
 
     install_audit()
     with Taps(ctx) as taps:
